@@ -71,16 +71,16 @@ Definition rot (y : N) : N :=
 
 (* the memory operand an 8-bit field of value 6 denotes: (hl), or (ix+d) with the displacement
    taken from [rest]; returns the operand, the bytes consumed and the remaining bytes *)
-Definition mem8 (m : imode) (rest : list N) : option (opnd * nat * list N) :=
+Definition mem8 (m : imode) (rest : list N) : option (opnd * N * list N) :=
   match m with
-  | None => Some (OInd rHL, 0%nat, rest)
+  | None => Some (OInd rHL, 0, rest)
   | Some (x, _, _) => match rest with
-                      | d :: r => Some (OIdx x d, 1%nat, r)
+                      | d :: r => Some (OIdx x d, 1, r)
                       | [] => None
                       end
   end.
 
-Definition ret1 (mn : N) (ops : list opnd) (len : nat) : dec := Some (mn, ops, len).
+Definition ret1 (mn : N) (ops : list opnd) (len : N) : dec := Some (mn, ops, N.to_nat len).
 
 (* CB-prefixed (plain): [op] follows the CB byte *)
 Definition dec_cb (op : N) : dec :=
@@ -152,10 +152,10 @@ Definition dec_ed (op : N) (rest : list N) : dec :=
   end.
 
 (* the main table, under index mode [m]; [pre] is the number of prefix bytes already consumed *)
-Definition dec_main (m : imode) (pre : nat) (op : N) (rest : list N) : dec :=
+Definition dec_main (m : imode) (pre : N) (op : N) (rest : list N) : dec :=
   let x := op / 64 in let y := (op / 8) mod 8 in let z := op mod 8 in
   let p := y / 2 in let q := y mod 2 in
-  let len (n : nat) := (pre + n)%nat in
+  let len (n : N) := pre + n in
   match x with
   | 0 =>
     match z with
